@@ -18,10 +18,10 @@ SHARDS = {"quick": 2, "thorough": 16}
 THOROUGH_DEPTH = 5      # thorough tier = this many times the base thorough budget (VERIF_DEPTH overrides)
 RULE = ("cases = (p, q, v): unit quaternions drawn per region (generic Haar, pure, real, axis-aligned, "
         "denormal component, tiny angle, near half-turn, near-antipodal pair p~-q), v finite over 12 decades; "
-        "each case drives all 17 routes; non-trivial = q is not +-identity; distinct = hash of route+input bytes")
+        "each case drives all 21 routes; non-trivial = q is not +-identity; distinct = hash of route+input bytes")
 ASSUMPTIONS = ["NumPy arithmetic is trusted", "reference model vt/ref/quat.py (Hamilton product; R columns = vec(q e_i q*))"]
 
-MAT_ROUTES = ["Quaternion.to_DCM", "QuaternionArray.to_DCM[N]", "QuaternionArray.to_DCM[1]", "DCM(q=)",
+MAT_ROUTES = ["Quaternion.to_DCM", "Quaternion.to_DCM[order=S]", "QuaternionArray.to_DCM[N]", "QuaternionArray.to_DCM[N,order=S]", "QuaternionArray.to_DCM[1]", "DCM(q=)",
               "DCM.from_quaternion", "DCM.from_quaternion[batch]", "DCM.from_q", "q2R.v1", "q2R.v2",
               "q2R.v1[batch]", "q2R.v2[batch]"]
 OBJ_ROUTES = ["normalize()->routes"]
@@ -76,7 +76,9 @@ def _mat_routes(p, q):
         return np.array([x, p, -x, rq.qconj(x)])
     return {
         "Quaternion.to_DCM": lambda x: Q(x.copy()).to_DCM(),
+        "Quaternion.to_DCM[order=S]": lambda x: Q(np.r_[x[1:], x[0]], order="S").to_DCM(),              # the same quaternion stored scalar-last
         "QuaternionArray.to_DCM[N]": lambda x: QA(rows(x)).to_DCM()[0],
+        "QuaternionArray.to_DCM[N,order=S]": lambda x: QA(np.c_[rows(x)[:, 1:], rows(x)[:, 0]], order="S").to_DCM()[0],
         "QuaternionArray.to_DCM[1]": lambda x: QA(x.copy()[None]).to_DCM()[0],
         "DCM(q=)": lambda x: np.asarray(DCM(q=x.copy())),
         "DCM.from_quaternion": lambda x: DCM().from_quaternion(x.copy()),
